@@ -166,7 +166,10 @@ def execute(plan, scratch_root, decisions=None, jitters=None):
             alive = sched.alive_threads()
             if alive:
                 raise c20_cache.Violation('client.thread_left_running', f'alive after the run: {alive}', facts)
-            if os.listdir(rundir):
+            # (an injected failure of the clean-up call itself - rmtree / os.remove at close - legitimately leaves
+            # the files behind; close() has raised the error)
+            cleanup_failed = any(f[2] in ('rmtree', 'os.remove') for f in inj.fired)
+            if os.listdir(rundir) and not cleanup_failed:
                 raise c20_cache.Violation('client.cache_files_left', f'{os.listdir(rundir)}', facts)
         except c20_cache.Violation as v:
             res['violation'] = v.info
